@@ -1,6 +1,7 @@
 //! STOP: stop requests against a transport with real blocking receives (C18).
 //! `STOP <run> <handle> <point> <k>`: run = inline|spawn; handle = caller|internal (internal = CCPHandle::kill, spawn only);
-//! point = pre | mid | blocked | flood | badmsg (k = datagrams delivered before the clear for `mid`).
+//! point = pre | mid | blocked | flood | badmsg | quiet (k = datagrams delivered before the clear for `mid`; for `quiet`: the stop
+//! comes after k ms in which every receive failed after 2 ms).
 //! Answer: `RES HANG` (no return within 8 s) or `RES <OK|ERR|PANIC> closes=<n> recv_after_clear_le1=<0|1> late_cb=<n> latency_ok=<0|1> strong=<k>`
 use portus::ipc::{BackendBuilder, Ipc};
 use portus::{CongAlg, Datapath, DatapathInfo, Flow, Report};
@@ -25,6 +26,7 @@ struct Sock {
     handle: Option<Arc<AtomicBool>>, // for `mid`: the socket clears the flag itself between two datagrams
     clear_after: usize,
     flood: bool,
+    quiet: bool, // a receive with nothing to deliver fails after 2 ms (a nonblocking / short-timeout transport on an idle link)
     script: Mutex<Vec<Vec<u8>>>,
 }
 
@@ -64,6 +66,10 @@ impl Ipc for Sock {
         let d = match next {
             Some(d) => d,
             None if self.flood => measure(1, 0, &[1, 2]),
+            None if self.quiet => {
+                std::thread::sleep(Duration::from_millis(2));
+                return Err(portus::Error("timeout".into()));
+            }
             None => {
                 std::thread::sleep(Duration::from_millis(BLOCK_MS));
                 return Err(portus::Error("timeout".into()));
@@ -201,6 +207,7 @@ fn stop_inner(args: &[&str]) -> String {
         handle: if point == "mid" && handle == "caller" { Some(stop_arc.clone()) } else { None },
         clear_after: k,
         flood: point == "flood",
+        quiet: point == "quiet",
         script: Mutex::new(script),
     };
     if point == "pre" && handle == "caller" {
@@ -238,7 +245,13 @@ fn stop_inner(args: &[&str]) -> String {
     let res: Result<portus::Result<()>, ()>;
     let returned_at;
     if run == "inline" {
-        let helper = if point == "blocked" || point == "flood" { Some(clear_later(sh.clone(), stop_arc.clone(), 150)) } else { None };
+        let helper = if point == "blocked" || point == "flood" {
+            Some(clear_later(sh.clone(), stop_arc.clone(), 150))
+        } else if point == "quiet" {
+            Some(clear_later(sh.clone(), stop_arc.clone(), k as u64)) // after k ms of nothing but failed receives
+        } else {
+            None
+        };
         res = std::panic::catch_unwind(std::panic::AssertUnwindSafe(|| b.run())).map_err(|_| ());
         returned_at = Instant::now();
         if let Some(h) = helper {
@@ -255,8 +268,8 @@ fn stop_inner(args: &[&str]) -> String {
                 h.kill();
                 sh.cleared.store(true, Ordering::SeqCst);
             }
-            "mid" | "blocked" | "flood" => {
-                std::thread::sleep(Duration::from_millis(if point == "mid" { 5 + k as u64 } else { 150 }));
+            "mid" | "blocked" | "flood" | "quiet" => {
+                std::thread::sleep(Duration::from_millis(if point == "mid" { 5 + k as u64 } else if point == "quiet" { k as u64 } else { 150 }));
                 if !sh.cleared.load(Ordering::SeqCst) {
                     *sh.cleared_at.lock().unwrap() = Some(Instant::now());
                     if handle == "internal" {
@@ -282,7 +295,8 @@ fn stop_inner(args: &[&str]) -> String {
         _ => 0,
     };
     let latency_ok = match *sh.cleared_at.lock().unwrap() {
-        Some(c) => returned_at.saturating_duration_since(c) <= Duration::from_millis(BLOCK_MS + 1000),
+        // `quiet`: the receive timeout is 2 ms, so is "about one receive timeout" (400 ms of slack for a loaded machine)
+        Some(c) => returned_at.saturating_duration_since(c) <= Duration::from_millis(if point == "quiet" { 400 } else { BLOCK_MS + 1000 }),
         None => true,
     };
     let r = match res {
